@@ -30,6 +30,11 @@ mkdir -p "$BASE/sim/.cargo"
 printf '[net]\noffline = true\n[build]\ntarget-dir = "%s/target"\n' "$BASE" > "$BASE/sim/.cargo/config.toml"
 ( cd "$BASE/sim" && CARGO_NET_OFFLINE=true cargo build --release --offline > "$BASE/build.log" 2>&1 ) || { tail -30 "$BASE/build.log"; echo "MUTANT-BUILD-FAILED"; git -C "$WT" checkout -q -- .; exit 3; }
 cc -shared -fPIC -O2 -o "$BASE/target/entropy_shim.so" /verif/sim/shim/entropy_shim.c
+rm -rf "$BASE/chunksim"; mkdir -p "$BASE/chunksim/.cargo"
+cp -r /verif/chunksim/src /verif/chunksim/Cargo.toml /verif/chunksim/Cargo.lock /verif/chunksim/build.rs "$BASE/chunksim/"
+sed -i "s#\"/repo/#\"$WT/#g" "$BASE/chunksim/Cargo.toml"
+printf '[net]\noffline = true\n[build]\ntarget-dir = "%s/target"\n' "$BASE" > "$BASE/chunksim/.cargo/config.toml"
+( cd "$BASE/chunksim" && CHUNKSIM_REPO="$WT" CARGO_NET_OFFLINE=true cargo build --release --offline >> "$BASE/build.log" 2>&1 ) || { tail -30 "$BASE/build.log"; echo "MUTANT-BUILD-FAILED (chunksim)"; }
 rc=0
 for ID in ${IDS//,/ }; do
   VERIF_OUT_DIR="$BASE/out" "$BASE/target/release/verif-sim" run "$ID" "$TIER"
